@@ -31,7 +31,8 @@ ASSUMPTIONS = ['ignore_error and timeout are not set (piter_multiplex never sets
 RULE = ('entry points pmap / piter_fn / piter / piter_multiplex / MultiplexIterator x 1-3 inputs of 0-3 (quick) / 0-4 (thorough) '
         'elements x parallelism 1-3 x buffer sizes {0,1,2,3} (3*P for MultiplexIterator) x pool max_workers {default,1,2,3} x '
         'row function in {ident, inc, keep_even, dup, dup_odd} x failure of the input or of the function at any position x '
-        'early stop after 0-4 elements; schedules: seeded uniform-random and PCT priority schedules chosen on the REAL code, '
+        'early stop after 0-4 elements; input iterators ending with StopIteration(a) or StopIteration(a, b) (forwarded by map / bare inputs: every value must be kept); two-level piter with a generator iterator_fn or a pass-through map (which forwards the input queue\'s StopIteration(*returned)), chained queues q2.enqueue_from_iterator(q1) (oracle only); 10% directed '
+        'cases with 3-4 producers parked on a full buffer of 1-2 when an input / the function fails or the consumer stops; schedules: seeded uniform-random and PCT priority schedules chosen on the REAL code, '
         'replayed choice by choice on the Lean LTS (labels, enabled sets, per-thread pulled/received/outcome, queue.returned); '
         'non-trivial = at least 2 threads took turns at least 10 times; stage 2: the same case shapes on the real '
         'ThreadPoolExecutor, results + no surviving helper thread (join timeout = oracle failure)')
@@ -42,8 +43,11 @@ def gen_cases(ctx):
   rng = ctx.rng
   n = 6000 if ctx.quick else 40000
   for i in range(n):
-    api = 'piter2' if i % 12 == 11 else None
+    api = 'piter2' if i % 12 in (5, 11) else ('chain' if i % 24 == 7 else None)
     case = lp.gen_case(rng, quick=ctx.quick, api=api)
+    if i % 10 == 6:
+      case = lp.blocked_case(rng, quick=ctx.quick)
+      ctx.count('directed', 'blocked-producers')
     if i % 10 == 3:
       # directed at the hazards: more tasks than workers, full queue (more outputs than the buffer), then an
       # early stop or a late failure -- tasks that start late, producers parked in put during maybe_stop/shutdown
@@ -118,6 +122,9 @@ def finding(case, what):
 
 
 def neighbours(case, rng):
+  # first the classic hang shape: several producers parked on a small full buffer when something fails / stops
+  for k in range(400):
+    yield lp.blocked_case(rng)
   for k in range(300):
     c = copy.deepcopy(case)
     c['sched'] = dict(kind=rng.choice(['random', 'pct']), seed=rng.randrange(10**9), changes=rng.randrange(1, 6),
@@ -134,7 +141,9 @@ def extra(ctx):
   n = 500 if ctx.quick else 4000
   cases = []
   for i in range(n):
-    case = lp.gen_case(ctx.rng, quick=ctx.quick, api='piter2' if i % 10 == 9 else None)
+    case = lp.gen_case(ctx.rng, quick=ctx.quick, api='piter2' if i % 10 in (4, 9) else ('chain' if i % 20 == 7 else None))
+    if i % 10 == 6:
+      case = lp.blocked_case(ctx.rng, quick=ctx.quick)
     if pool_too_small(case):       # known open finding, reproduced in stage 1 (it costs a join timeout here)
       case['workers'] = 0
     case['sched'] = None
